@@ -20,6 +20,7 @@ MODULE_DEPS = {
     "dedupe__c08": ["path", "file"],
     "dedupe__c08b": ["path"],
     "path__c06": ["path"],
+    "group": [],
     "lock": ["path"],
     "dedupe__c20": ["path"],
     "dedupe__c07": ["dedupe", "path", "file"],
@@ -85,6 +86,8 @@ k("c08_path_may_drop_bounded", "dedupe::may_drop", module="dedupe__c08b", t=900,
   cls="bounded", bound="<= 2 patterns per option, one two-component path; Pattern matchers arbitrary and independent")
 k("c06_is_prefix_of_compares_components_bounded", "path::Path::is_prefix_of + Path::components", module="path__c06", t=600,
   cls="bounded", bound="paths of one and two components with 1-2 byte names (any bytes but NUL and `/`)")
+k("c14_header_totals_bounded", "group::file_count + group::total_size + FileGroup::{file_count, total_size}", module="group", t=600,
+  cls="bounded", bound="two groups of 0..3 files, lengths <= 2^40")
 # ---- semaphore.rs
 k("c19_release", "semaphore::Semaphore::release", module="semaphore", t=300)
 k("c19_guard_roundtrip", "semaphore::Semaphore::access + Drop for SemaphoreGuard", module="semaphore", t=300)
@@ -258,7 +261,7 @@ PROPS = {
         design_ref="DESIGN.md §5 C06",
     ),
     "C14": dict(
-        kani=[],
+        kani=["c14_header_totals_bounded"],
         verus=["filegroup_counts", "report_header", "subgroup_grouping"],
         prefixes=["C14.", "C06.group."],
         category="proof",
